@@ -21,6 +21,16 @@ CLAIMED = {
         "equality.",
         design_ref="DESIGN.md §4 C02",
     ),
+    "C17": dict(
+        technique=TECH + "finite decision-tree enumeration of Serial::partial_cmp against the RFC 1982 "
+        "table, guard dominance for add, who-may-compare-raw audit of all serial/timestamp uses",
+        text="Decides C17 for the recognised implementation shape: all CFG paths of Serial::partial_cmp "
+        "are enumerated and abstracted to the orderings they test (a?b, |a-b| ? 2^31) and must equal the "
+        "RFC 1982 table; add wraps and is guarded by other<=2^31-1; Timestamp delegates; no Ord impl; "
+        "no raw-integer ordering or checked subtraction of serials/signature times outside wire-order "
+        "impls anywhere in the crate (all features).",
+        design_ref="DESIGN.md §4 C17",
+    ),
 }
 
 NOT_APPLICABLE = {
@@ -115,7 +125,7 @@ def main():
         print("MANIFEST.json written (jsonschema not available in this interpreter)")
 
 
-SOURCE_COMMITS = ["6d017b8"]
+SOURCE_COMMITS = ["6d017b8", "5bee0e2"]
 
 if __name__ == "__main__":
     main()
